@@ -114,10 +114,11 @@ def task_grouped(arg):
     return out.dump()
 
 
-def task_pointer(n):
+def task_pointer(arg):
     """sum_by_p_id and join_numpy over all pointer columns in {-1, -5, valid ids} and all store orders."""
+    n, dense = arg
     out = Partial()
-    base = PIDS[:n]
+    base = list(range(n)) if dense else PIDS[:n]  # dense: the labelling 0..n-1 (shortcuts that confuse ids with positions)
     cols = [("float", np.array(FLOATS[:n])), ("int", np.array(INTS[:n])), ("bool", np.array([i % 2 == 0 for i in range(n)])),
             ("bool", np.array([True] * n))]
     for perm in itertools.permutations(range(n)):
@@ -177,7 +178,7 @@ def task_pointer(n):
             out.count("by_p_id_kinds_loudly_unimplemented")
         except Exception as e:  # noqa: BLE001
             out.violation(f"{name}:exception:{type(e).__name__}", {"n": n}, repr(e))
-    out.sample({"pointer_n": n, "p_ids": base}, limit=1)
+    out.sample({"pointer_n": n, "p_ids": base, "dense": dense}, limit=1)
     return out.dump()
 
 
@@ -346,7 +347,8 @@ def run(tier):
         tasks += [(n, n <= (5 if thorough else 4), pre) for pre in itertools.product(GIDS, repeat=k)]
     for part in harness.pmap(task_grouped, harness.rotate(tasks)):
         rep.merge(part)
-    for part in harness.pmap(task_pointer, [1, 2, 3] + ([4] if thorough else [])):
+    ptasks = [(n, False) for n in (1, 2, 3)] + [(n, True) for n in (1, 2, 3, 4)] + ([(4, False), (5, True)] if thorough else [])
+    for part in harness.pmap(task_pointer, ptasks):
         rep.merge(part)
     dates = popgen.quick_dates(3) if not thorough else popgen.d15()
     combos = [["couple_kids", "single_parent"], ["patchwork", "pensioners", "three_gen"], ["parent_elsewhere", "young_adult", "parental_leave"]]
